@@ -269,4 +269,4 @@ def run(rec):
     fp_lemma(rec, 8 if q else 12)
     text, conds = gen(rec.tier, rec.seed)
     mod = pysym.write_module("hgen_C15", text)
-    pysym.run_conditions(rec, mod, conds, default_timeout=120)
+    pysym.run_auto(rec, mod, conds, default_timeout=120)
